@@ -32,12 +32,15 @@ from mc.refs import formats as F
 ID = "C02"
 LEVEL = "exploration"
 RULE = (
-    "per format x selectable backend: union of complete sub-products A (lengths x contents x 2 salts x cost set), "
-    "B (small passwords x every salt size + symbol-in-every-position walk x 2 costs), C (small passwords x every cost), "
-    "D (small passwords x idents x variants x users x realms x encodings), E (byte/code-point grid); slow formats "
-    "(sun_md5, builtin bcrypt, atlassian, msdcc2, DES-reference formats) on declared reduced grids; a case is "
-    "non-trivial when passlib really computed a digest for it and the reference rendered the full string; distinct "
-    "class = format|backend|length|content|salt-shape|cost|ident/variant|context shape"
+    "per format x selectable backend: union of complete sub-products A (lengths x contents x salts x cost set; for "
+    "sha2-crypt the full lengths x 42-residue product), B (small passwords x every salt size + the walk putting every "
+    "salt symbol in every position), C (small passwords x every cost), D (small passwords x idents x variants x users "
+    "x realms x encodings x 2 costs), E (byte / code-point grid over the significant prefix); budget classes cheap / "
+    "medium / slow (sun_md5, builtin bcrypt, builtin scrypt, atlassian, msdcc2) / wrapper ({CRYPT} prefixes) / token "
+    "(non-bcrypt handlers over the pure-Python blowfish) shrink the small sets and stride the walks, never the "
+    "length or residue boundaries of A; a case is non-trivial when passlib really computed a digest for it and the "
+    "reference rendered the full string; distinct class = format|backend|length|content|salt-shape|cost|"
+    "ident/variant|context"
 )
 
 QUICK_LENGTHS = [0, 1, 7, 8, 9, 15, 16, 17, 55, 56, 63, 64, 65, 72, 73, 95, 96, 97, 127, 128, 129, 255, 256]
@@ -344,6 +347,8 @@ def cost_values(fmt, ax, tier, backend, bud):
 # ---------------------------------------------------------------------------
 def lengths_for(fmt, ax, tier, backend, bud):
     if ax["maxlen"] is not None:
+        if fmt == "libpass.bcrypt":  # a cap of the driver, not a rule of the format: the listed boundaries suffice
+            return [n for n in (QUICK_LENGTHS if tier == "quick" else THOROUGH_LENGTHS) if n <= ax["maxlen"]]
         return list(range(0, ax["maxlen"] + 1))
     if bud == "token":
         return [0, 8, 72, 73]
@@ -359,7 +364,7 @@ def lengths_for(fmt, ax, tier, backend, bud):
     if fmt in ("des_crypt", "crypt16", "django_des_crypt", "lmhash") and not quick:
         ls = [n for n in ls if n <= 130 or n in (255, 256, 4096)]
     if bud == "slow" and quick:
-        ls = [n for n in ls if n in (0, 1, 8, 9, 16, 17, 55, 56, 64, 65, 72, 73, 96, 97, 255, 256)]
+        ls = [n for n in ls if n in (0, 1, 8, 9, 55, 56, 64, 72, 73, 96, 255)]
     if bud == "wrapper":
         ls = [n for n in ls if n in (0, 1, 8, 9, 16, 17, 56, 72, 73, 96, 97, 256)]
     return ls
@@ -476,8 +481,11 @@ def gen_cases(fmt, backend, tier, seed):
                         for cx in ctx_base:
                             add("A", pw(c, n), c, settings_dict(s, r), cx, nearmiss=(c == c0), n=n)
     elif bud == "medium":
+        a_contents = contents
+        if fmt == "bigcrypt" and quick:
+            a_contents = [c for c in contents if c != "mixed"]  # one 10 ms reference DES per 8 bytes
         for n in lengths:
-            for c in contents:
+            for c in a_contents:
                 if block42 and not quick and c not in (c0, c2):
                     rs = [1000 + r for r in RESIDUES_QUICK]  # thorough: all 86 residues on two contents
                 else:
@@ -497,7 +505,7 @@ def gen_cases(fmt, backend, tier, seed):
         for n in lengths:
             add("A", pw(c0, n), c0, settings_dict(base_salts[0], costs_a[0]), ctx0, nearmiss=(n == 8), n=n)
     # ---- B: every salt size, every salt symbol in every position
-    b_pw = {"cheap": small, "medium": tiny, "slow": one, "wrapper": one, "token": one}[bud]
+    b_pw = {"cheap": small[:6] if quick else small, "medium": tiny, "slow": one, "wrapper": one, "token": one}[bud]
     b_costs = costs_a[:2] if bud == "cheap" else costs_a[:1]
     b_salts = size_salts + walk_salts
     if bud in ("wrapper", "token"):
